@@ -7,6 +7,7 @@ import (
 	"errors"
 	"fmt"
 	"io"
+	"math"
 	"net"
 	"net/http"
 	"strconv"
@@ -211,7 +212,7 @@ func (s *server) inner(w http.ResponseWriter, r *http.Request) {
 			partial = true
 			break
 		}
-		if n > limit+overrunStop {
+		if limit < math.MaxInt64-overrunStop && n > limit+overrunStop { // (no wrap-around for limits near MaxInt64)
 			stopped = true
 			break
 		}
@@ -437,7 +438,9 @@ func (e *envCache) server(limit int64, defaultList bool, enabled []string) (*ser
 	return s, nil
 }
 
-func (e *envCache) client(comp string, level int) (*client, error) { return e.clientOf(comp, level, false) }
+func (e *envCache) client(comp string, level int) (*client, error) {
+	return e.clientOf(comp, level, false)
+}
 
 func (e *envCache) clientOf(comp string, level int, bare bool) (*client, error) {
 	key := fmt.Sprintf("%s|%d|%v", comp, level, bare)
